@@ -46,6 +46,8 @@ def run(ctx: Context) -> None:
     clause_a(ctx, idx, reg, res)
     clause_b(ctx, idx, reg, res)
     clause_c(ctx, idx, reg)
+    ctx.rule("C09d", "the NumPy and the JAX implementation of the Gaussian density-matrix recurrence (_entry_raising_ket / _entry_raising_bra) have the same pivot, initial term, loop summands and divisor (normal forms over abstract states and indices)")
+    clause_d(ctx, idx)
 
 
 # ================================================================================================ (a)
@@ -367,3 +369,59 @@ def clause_c(ctx, idx, reg) -> None:
                               f"`if connector.is_abstract({var}): return`: under jax.jit / tf.function the parameter is a tracer and the "
                               f"test raises or is baked into the trace", norm(node_ast)[:90])
     ctx.require_floor("value-inspecting _validate methods", n, 8)
+
+
+# ================================================================================================ (d)
+
+
+def clause_d(ctx: Context, idx) -> None:
+    from .. import recurrence as rc
+    mn = idx.module("piquasso._math.hermite")
+    mj = idx.module("piquasso._math.jax.hermite")
+    n_cmp = 0
+    for name in ("_entry_raising_ket", "_entry_raising_bra"):
+        fn_n, fn_j = mn.functions.get(name), mj.functions.get(name)
+        if fn_n is None or fn_j is None:
+            raise AnalysisError(f"anchor vanished: {name} in piquasso._math.hermite / piquasso._math.jax.hermite")
+        # what the parameters denote is read from the call in the NumPy driver: f(row, basis[col], basis[row], ...)
+        drv = mn.functions.get("density_matrix_from_gaussian")
+        call = next((c for c in ast.walk(drv.node) if isinstance(c, ast.Call) and isinstance(c.func, ast.Name) and c.func.id == name), None) if drv else None
+        if call is None:
+            raise AnalysisError(f"anchor vanished: the call of {name} in density_matrix_from_gaussian")
+        terms_n = {}
+        for pname, arg in zip(fn_n.params(), call.args):
+            if isinstance(arg, ast.Subscript) and isinstance(arg.value, ast.Name) and arg.value.id == "basis" and isinstance(arg.slice, ast.Name):
+                terms_n[pname] = rc.BRA if arg.slice.id == "row" else (rc.KET if arg.slice.id == "col" else None)
+            elif isinstance(arg, ast.Name) and arg.id in ("row", "col"):
+                terms_n[pname] = ("idx", rc.BRA if arg.id == "row" else rc.KET)
+        terms_n = {k: v for k, v in terms_n.items() if v is not None}
+        terms_j = {p: ("idx", rc.BRA if p == "row" else rc.KET) for p in fn_j.params() if p in ("row", "col")}
+        try:
+            nf_n = rc.NumpyReader(fn_n, terms_n).run()
+            nf_j = rc.JaxReader(fn_j, terms_j).run()
+        except rc.Unreadable as e:
+            ctx.error(str(e))
+            continue
+        n_cmp += 1
+        for part in ("pivot_of", "init", "loops", "divisor"):
+            a, b = nf_n[part], nf_j[part]
+            ok = a == b
+            key = f"piquasso._math.jax.hermite:{name}|same-{part}-as-numpy"
+            def show(x):
+                if part == "loops":
+                    return [rc.fmt_product(p) for p in x]
+                if part == "init":
+                    return rc.fmt_product(x)
+                return rc.fmt(x)
+            ctx.obligation("C09d", key, ok, f"{ctx.relpath(fn_j.file)}:{fn_j.line}", numpy=str(show(a)), jax=str(show(b)))
+            if not ok:
+                if part == "loops":
+                    only_n = [rc.fmt_product(p) for p in a if p not in b]
+                    only_j = [rc.fmt_product(p) for p in b if p not in a]
+                    detail = f"summands only in the NumPy version: {only_n}; only in the JAX version: {only_j}"
+                else:
+                    detail = f"NumPy: {show(a)}; JAX: {show(b)}"
+                ctx.violation("C09d", key, fn_j.file, fn_j.line,
+                              f"the two implementations of the density-matrix recurrence {name} differ in their {part.replace('_', ' ')}: {detail}; "
+                              f"GaussianState.density_matrix then depends on the connector", detail[:160])
+    ctx.require_floor("recurrence functions compared between the NumPy and the JAX implementation", n_cmp, 2)
